@@ -1,6 +1,6 @@
 """C08: block macro machine simulates the base machine exactly."""
 from .macrosim import check_sim
-LEVEL = "exploration"
+LEVEL = "proof"
 
 
 def check(rep, tier, seed, replay):
